@@ -358,7 +358,7 @@ func diffTimes(got, want tvDoc) string {
 }
 
 func suiteTtml(R *runner, r *rng) {
-	R.rule("ttml: ground-truth documents (1..5 cues; 0..6 styles whose parent links form a forest, several styles sharing a parent, parents defined before or after their children; 0..4 regions with style references; inline tts:* attributes on styles, regions, paragraphs and spans incl. empty values and characters needing escapes; title, copyright, xml:lang among the five mapped languages (with and without subtags), others and none; frameRate in {absent,0,1,8,12,24,25,30,48,50,60,100,120}, tickRate in {absent,1,3,7,10,60,1000,44100,48000,90000,10^7,27*10^6}; 1..5 lines of 0..3 runs, empty lines first/middle/last, bare text and spans, text over a palette with & < > quotes, accents, CJK, non-BMP, NBSP/ideographic space, combining marks) x renderings (each boundary in any syntax that denotes it exactly: clock time with 0-3 fraction digits, clock time with frames, offsets in h/m/s/ms with decimal fractions, f, t; indentation none/spaces/tab between elements and around <br/>; <br/> between elements or inside the element when both sides are one run; three namespace-prefix schemes; attribute order/quoting, character references); oracle: the reader returns the ground truth, every boundary = the denoted instant when that is a whole number of ns and otherwise within 1 ns of it; the same documents as trees through the extracted Coq reader model; time expressions: boundary grids per syntax and unit, exhaustive 0.000s..9.999s, frame grids for 8 rates, tick grids for 10 rates, random, malformed strings (model only); writer: values from the ground truth (XML-legal text incl. tab, CR, leading/trailing blanks; nil metadata, nil inline styles, nil map entries, indent option absent/\"\"/tab/spaces/newline) decoded by an independent encoding/xml-based decoder and by the library's reader: same cues (times truncated to ms), styles, regions, title, copyright, language; bytes of the output vs the Coq writer model for every indent option, the harness's parse of them vs the model's indented tree, the Coq XML parser vs encoding/xml on them, and the byte-level reader model (Coq parser + tree reader) vs ReadFromTTML on them; non-trivial = at least one style or two lines")
+	R.rule("ttml: ground-truth documents (1..5 cues; 0..6 styles whose parent links form a forest, several styles sharing a parent, parents defined before or after their children; 0..4 regions with style references; inline tts:* attributes on styles, regions, paragraphs and spans incl. empty values and characters needing escapes; title, copyright, xml:lang among the five mapped languages (with and without subtags), others and none; frameRate in {absent,0,1,8,12,24,25,30,48,50,60,100,120}, tickRate in {absent,1,3,7,10,60,1000,44100,48000,90000,10^7,27*10^6}; 1..5 lines of 0..3 runs, empty lines first/middle/last, bare text and spans, text over a palette with & < > quotes, accents, CJK, non-BMP, NBSP/ideographic space, combining marks) x renderings (each boundary in any syntax that denotes it exactly: clock time with 0-3 fraction digits, clock time with frames, offsets in h/m/s/ms/f/t with decimal fractions (fractional frame and tick counts included); indentation none/spaces/tab between elements and around <br/>; <br/> between elements or inside the element when both sides are one run; three namespace-prefix schemes; attribute order/quoting, character references); oracle: the reader returns the ground truth, every boundary = the denoted instant when that is a whole number of ns and otherwise within 1 ns of it; the same documents as trees through the extracted Coq reader model; time expressions: boundary grids per syntax and unit, exhaustive 0.000s..9.999s, frame grids for 8 rates, tick grids for 10 rates, random, malformed strings (model only); writer: values from the ground truth (XML-legal text incl. tab, CR, leading/trailing blanks; nil metadata, nil inline styles, nil map entries, indent option absent/\"\"/tab/spaces/newline) decoded by an independent encoding/xml-based decoder and by the library's reader: same cues (times truncated to ms), styles, regions, title, copyright, language; bytes of the output vs the Coq writer model for every indent option, the harness's parse of them vs the model's indented tree, the Coq XML parser vs encoding/xml on them, and the byte-level reader model (Coq parser + tree reader) vs ReadFromTTML on them; non-trivial = at least one style or two lines")
 	N := 700
 	if R.tier == "thorough" {
 		N = 12000
@@ -520,6 +520,15 @@ func suiteTtml(R *runner, r *rng) {
 		}
 		for _, f := range []int{1000, 86399, 90000, 2160000, 1234567} {
 			addT(strconv.Itoa(f)+"f", fr, 0, "ttml.time.frames")
+		}
+	}
+	// fractional frame and tick counts (offset-time allows a fraction with every metric)
+	for _, v := range []string{"0.5", "12.5", "1.25", "99.75", "0.04", "0.001", "7.1", "24.999", "100.0", "3.000", "0.0"} {
+		for _, fr := range rates {
+			addT(v+"f", fr, 0, "ttml.time.frames.frac")
+		}
+		for _, tr := range trates {
+			addT(v+"t", 25, tr, "ttml.time.ticks.frac")
 		}
 	}
 	for _, tr := range trates {
